@@ -144,69 +144,6 @@ Lemma rt_int8 v rest : - Z.of_N (2 ^ 63) <= v < Z.of_N (2 ^ 63) ->
   read_int true 8 (write_int 8 v ++ rest) = Ok (v, rest).
 Proof. intro H. apply (roundtrip_int 8%nat); [lia|]. exact H. Qed.
 
-Lemma bind_ok {A B} (a : A) r (k : A -> bytes -> res (B * bytes)) : bind (Ok (a, r)) k = k a r.
-Proof. reflexivity. Qed.
-
-Lemma key_part_1 k : key_part 1 k = Some [].
-Proof. reflexivity. Qed.
-Lemma key_part_4 k : key_part 4 k = Some [].
-Proof. reflexivity. Qed.
-Lemma key_part_2 d : key_part 2 (Some d)
-  = Some (write_int 8 (k_expiry d) ++ write_bytes (k_pub d) ++ write_bytes (k_sig d) ++ []).
-Proof. reflexivity. Qed.
-Lemma key_part_3 d : key_part 3 (Some d)
-  = Some (write_int 8 (k_expiry d) ++ write_bytes (k_pub d) ++ write_bytes (k_sig d)
-          ++ match k_holder d with Some h => write_bool true ++ write_uuid h | None => write_bool false end).
-Proof. reflexivity. Qed.
-Lemma key_part_none_23 v : v = 2 \/ v = 3 -> key_part v None = None.
-Proof. intros [->| ->]; reflexivity. Qed.
-
-Ltac step_ok := rewrite bind_ok; cbv beta.
-
-Theorem parse_thm v i b :
-  dom_input i -> 1 <= v <= 4 ->
-  body_of_version v i = Some b ->
-  paper_parse b = Ok (expected_parsed v i, []).
-Proof.
-  intros (Ha & Hu & Hn & Hp & Hk) Hv Hb.
-  unfold body_of_version in Hb.
-  destruct (key_part v (f_key i)) as [kp|] eqn:Ekp; [|discriminate].
-  injection Hb as Hb. subst b.
-  unfold paper_parse.
-  rewrite roundtrip_varint by lia. step_ok.
-  assert (Emax : (paper_max_version <? v) = false) by (apply Z.ltb_ge; unfold paper_max_version; lia).
-  rewrite Emax.
-  rewrite rt_string by (try exact Ha; lia). step_ok.
-  rewrite (roundtrip_uuid _ _ Hu). step_ok.
-  rewrite rt_string by (try exact Hn; lia). step_ok.
-  rewrite (roundtrip_properties _ _ Hp). step_ok.
-  unfold expected_parsed.
-  assert (Hcases : v = 1 \/ v = 2 \/ v = 3 \/ v = 4) by lia.
-  destruct Hcases as [->|[->|[->|->]]].
-  - rewrite key_part_1 in Ekp. inversion Ekp; subst. reflexivity.
-  - destruct (f_key i) as [d|]; [|rewrite key_part_none_23 in Ekp by auto; discriminate].
-    rewrite key_part_2 in Ekp. inversion Ekp; subst. clear Ekp.
-    destruct Hk as (He & Hpub & Hsig & _).
-    change ((2 =? 2) || (2 =? 3)) with true. cbv iota.
-    rewrite (rt_int8 _ _ He). step_ok.
-    rewrite rt_bytes by (try exact Hpub; lia). step_ok.
-    rewrite rt_bytes by (try exact Hsig; lia). step_ok.
-    reflexivity.
-  - destruct (f_key i) as [d|]; [|rewrite key_part_none_23 in Ekp by auto; discriminate].
-    rewrite key_part_3 in Ekp. inversion Ekp; subst. clear Ekp.
-    destruct Hk as (He & Hpub & Hsig & Hh).
-    change ((3 =? 2) || (3 =? 3)) with true. cbv iota.
-    rewrite (rt_int8 _ _ He). step_ok.
-    rewrite rt_bytes by (try exact Hpub; lia). step_ok.
-    rewrite rt_bytes by (try exact Hsig; lia). step_ok.
-    change (3 =? 3) with true. cbv iota.
-    destruct (k_holder d) as [h|].
-    + rewrite <- app_assoc. rewrite (roundtrip_bool true _ I). step_ok. cbv iota.
-      rewrite <- (app_nil_r (write_uuid h)). rewrite (roundtrip_uuid _ _ Hh). step_ok. reflexivity.
-    + rewrite <- (app_nil_r (write_bool false)). rewrite (roundtrip_bool false _ I). step_ok. reflexivity.
-  - rewrite key_part_4 in Ekp. inversion Ekp; subst. reflexivity.
-Qed.
-
 (* ---------- forwarding must have been requested ---------- *)
 
 Theorem required_thm pre post :
